@@ -41,3 +41,29 @@ package keeper
 //@   ensures burned: err == nil ==> supply == addcoin(old(supply), p.PoolCreationFee.Denom, 0 - (p.PoolCreationFee.Amount - taxOf(p)))
 //@   nopanic C16
 //@ end
+
+// ---------------------------------------------------------------------------------------------
+// Store families
+
+//@ family pools   key types.KeyFarmPool value types.FarmPool prefix global:types.FarmPoolKey
+//@ family ruleF   key types.KeyRewardRule value types.RewardRule prefix types.PrefixRewardRule
+//@ family farmers key types.KeyFarmInfo value types.FarmInfo prefix types.PrefixFarmInfo
+//@ family active  key types.KeyActiveFarmPool value str prefix types.PrefixActiveFarmPool,global:types.ActiveFarmPoolKey
+//@ family poolSeq key types.KeyFarmPoolSeq value uint64
+
+// every stored rule is stored under its own reward denomination
+//@ define rulesWF = forall p:Str :: forall d:Str :: has(ruleF, p, d) ==> get(ruleF, p, d).Reward == d
+
+// The rules of a pool as a list: exactly the stored rules of that pool, each once (iterator loop, A-ITER).
+//@ func Keeper.GetRewardRules
+//@   property C05, C06
+//@   returns rules
+//@   requires rulesWF
+//@   invariant #1 pos:   0 <= it_idx && it_idx <= it_n && len(rules) == it_idx
+//@   invariant #1 elems: forall j:Int :: 0 <= j && j < it_idx ==> rules[j] == get(ruleF, poolId, it_seq[j].k1) && rules[j].Reward == it_seq[j].k1
+//@   witness rule_pos: forall d:Str :: uf("rule_pos", ruleF, poolId, d) == itpos(poolId, d)
+//@   ensures stored:   forall j:Int :: 0 <= j && j < len(rules) ==> has(ruleF, poolId, rules[j].Reward) && rules[j] == get(ruleF, poolId, rules[j].Reward)
+//@   ensures distinct: forall a:Int :: forall b:Int :: 0 <= a && a < b && b < len(rules) ==> rules[a].Reward != rules[b].Reward
+//@   ensures complete: forall d:Str :: has(ruleF, poolId, d) ==> 0 <= uf("rule_pos", ruleF, poolId, d) && uf("rule_pos", ruleF, poolId, d) < len(rules)
+//@                                       && rules[uf("rule_pos", ruleF, poolId, d)].Reward == d
+//@ end
